@@ -6,7 +6,8 @@ import core
 import gen
 
 THEOREMS = ["C18.c18_masks", "C18.c18_format", "C18.c18_format_repo", "C18.c18_high_bits", "C18.c18_rows_class",
-            "C18.c18_rows_partition", "C18.c18_names_pinned", "C18.classify_table", "C18.rows_table"]
+            "C18.c18_rows_partition", "C18.c18_names_pinned", "C18.classify_table", "C18.rows_table",
+            "C18.c18_row_details", "C18.c18_row_details_repo"]
 
 
 def run(ctx, replay_case):
@@ -51,6 +52,41 @@ def run(ctx, replay_case):
                 ctx.violations.append({"kind": "concrete", "signature": "rc:rows",
                                        "what": f"TPM_RC({v:#x}): the bit rows do not partition the 32-bit word",
                                        "replay": {"value": v, "rows": impl[n + j]}})
+    # the classification carried by the rows' details: the same as the text form (which is checked against the format rules above)
+    import re
+    dops = [("RCD", v) for v in vals if v]
+    det = core.run_impl(dops)
+    dmodel = core.run_model([core.op_line(o) for o in dops])
+    dcorr = [i for i in range(len(dops)) if det[i] != dmodel[i]]
+    ndet = 0
+    for v, sp, dl in zip([v for v in vals if v], [spec[i] for i in range(n) if vals[i]], det):
+        text = sp[0].split("fmt=", 1)[1]
+        m = re.fullmatch(r"TPM_RC\.(\w+)(?: \((.*)\))?", text)
+        rows = {l.split(" ", 2)[1]: l.split(" ", 2)[2] for l in dl if l.startswith("D ") and len(l.split(" ", 2)) == 3}
+        problem = None
+        if not m:
+            continue
+        name, attr = m.group(1), m.group(2)
+        fmt1 = bool(v & 0x80)
+        if "code" in rows and rows["code"] != name:
+            problem = f"the code row says {rows['code'].split(':')[0]!r} but the code is {name}"
+        elif attr and attr != "Vendor-defined" and attr not in rows.values():
+            problem = f"no row carries {attr!r}"
+        elif not fmt1 and (v & 0x100) and rows.get("severity") != ("Warning" if v & 0x800 else "Error"):
+            problem = f"the severity row says {rows.get('severity')!r}"
+        elif any(l.startswith("D crash") for l in dl):
+            problem = dl[0]
+        if problem:
+            ndet += 1
+            if ndet <= 3:
+                ctx.violations.append({"kind": "concrete", "signature": "rc:row-details",
+                                       "what": f"TPM_RC({v:#x}): the bit rows do not carry the classification of the text form {text!r}: {problem}",
+                                       "replay": {"value": v, "text": text, "rows": dl}})
+    if dcorr and not ndet:
+        i = dcorr[0]
+        ctx.violations.append({"kind": "correspondence", "what": "response-code row-details model and implementation disagree",
+                               "replay": {"correspondence": "RCD", "value": dops[i][1], "model": dmodel[i], "impl": det[i],
+                                          "disagreements": len(dcorr)}})
     if corr and not mon and not nrow:
         i = corr[0]
         o = (ops + bops)[i]
@@ -66,11 +102,12 @@ def run(ctx, replay_case):
         "evaluations": len(ops) + len(bops), "distinct_nontrivial": len(set(vals)) - 1,
         "rule": "all values of the low 12 bits with bit 7 or bit 8 set, plus zero, each with 5 high-bit patterns (0, bit 12, "
                 "bit 31, 0xFFFFF000, one seeded); text compared with the Lean bit-position spec rendered with the pinned "
-                "name maps; rows checked for partition of 32 bits; both compared with the model",
+                "name maps; rows checked for partition of 32 bits; both compared with the model; the rows' free-text details (code name, "
+                "parameter/session/handle number, severity) checked against the text form",
         "samples": [{"value": hex(vals[i]), "text": impl[i][0]} for i in range(0, n, max(1, n // 6))][:6],
         "exhaustive": True,
-        "correspondence": {"ops": len(ops) + len(bops), "model_vs_impl_disagreements": len(corr),
-                           "impl_vs_spec_disagreements": len(mon), "row_failures": nrow},
+        "correspondence": {"ops": len(ops) + len(bops) + len(dops), "model_vs_impl_disagreements": len(corr) + len(dcorr),
+                           "impl_vs_spec_disagreements": len(mon), "row_failures": nrow, "row_detail_failures": ndet},
         "distribution": {"classes": dict(classes)},
     })
 
